@@ -28,7 +28,7 @@ RULE = ("cases: (W, means, variances, do, noise, shift) tuples.  distinct = dist
 ASSUMPTIONS = ["scalar intervention parameters are python int/float (the documented form)",
                "condition-scaled tolerance: 1e3*eps*cond(I-W'^T) relative to the natural scale of the result"]
 EXHAUSTIVE = {"quick": False, "thorough": False}
-SOFT_LIMIT = {"quick": 240, "thorough": 1500}
+SOFT_LIMIT = {"quick": 1200, "thorough": 5400}      # generous wall-clock watchdogs (a loaded machine must not cut a workload short); normal run times are in the evidence
 REQUIRED_FUNCS = ["sempler/lganm.py:LGANM.sample", "sempler/lganm.py:LGANM.__init__"]      # public entry points only: a rewrite may drop private helpers
 REQUIRED_COUNTERS = {"quick": {"judged": 5000, "call-form:positional": 300, "overlap:do+noise": 100, "overlap:do+shift": 100, "overlap:noise+shift": 100,
                                "overlap:all-three": 50, "scalar-param": 500, "dtype:int-means-or-variances": 200, "form:None": 100, "form:{}": 100, "form:omitted": 100,
